@@ -63,6 +63,9 @@ func (c03) Generate(prop string, r *simrt.RNG, tier string, run int) *simrt.Scen
 	poolSize := []int{4, 10, 40, 200}[r.Intn(4)]
 	g := newHistoryGen(r, poolSize, r.Chance(1, 2))
 	g.maxRoots = 14
+	// the states are built without MemSet under a mem-tree configuration (the
+	// recorded known C01 defect could otherwise block building a state)
+	g.noMemSet = sc.Knobs["cfg"]&BitMemTree != 0
 	nsets := r.Range(1, 12)
 	nprove := r.Range(4, 30)
 	total := nsets + nprove
@@ -153,7 +156,12 @@ func (c03) Execute(t *testing.T, ctx *simrt.Ctx) *simrt.Violation {
 				continue
 			}
 			if v := w.execWrite(op); v != nil {
-				return v
+				// Building the state failed. That is a verdict of C01 (which runs the
+				// same histories with its own oracle), not of the proof property:
+				// the run ends here without a C03 verdict.
+				ctx.Probe("history_blocked_" + v.Class)
+				ctx.Logf("history op failed: %s %s", v.Class, v.Sig)
+				return nil
 			}
 		case "prove":
 			if v := c03Prove(ctx, w, op); v != nil {
